@@ -273,6 +273,8 @@ def perturb(rng, obj):
         if isinstance(o, float) and not done[0]:
             done[0] = True
             return o + d
+        if type(o) not in (dict, list, tuple, set, frozenset):
+            return o          # container subclasses (OrderedDict, namedtuple, ...) are passed on as they are
         if isinstance(o, dict):
             return dict((k, walk(v)) for k, v in o.items())
         if isinstance(o, (list, tuple, set, frozenset)):
@@ -374,7 +376,10 @@ ROUND_NESTED = [[1.26, 'a'], (1.26, [2.51, 3]), {'p': 1.26}, {'p': [1.24, {'q': 
                 [1.24, 'a'], (1.24, [2.49, 3]), {'p': 1.24}, [[1.26]], [[1.24]], (7, 'abc'),
                 (1.26, 'x'), frozenset([0.52, 'x']), (frozenset([1.26, 2]), 'y'), (1.2, (2.4, 'a'))]
 ROUND_HOSTILE = [{'__d__': [[1, 1.26]]}, {'__d__': [[1, 1.24]]}, {'__r__': [0, 3, 1]},
-                 {'__s__': [1.26, 2]}, {'__fs__': [1.24, 2]}, {'__d__': [[{'__t__': [1, 2]}, 'v']]}]
+                 {'__s__': [1.26, 2]}, {'__fs__': [1.24, 2]}, {'__d__': [[{'__t__': [1, 2]}, 'v']]},
+                 # subclasses of the containers named in the property: rounding must at least leave such calls valid
+                 {'__od__': [['p', 1.26], ['q', 'a']]}, {'__dd__': [['p', 1.26]]}, {'__nt__': [1.26, 'a']},
+                 {'__dq__': [1.26, 2]}, [{'__dd__': [['p', 1.24]]}], {'p': {'__nt__': [2.51, 3]}}]
 
 
 # ---------------------------------------------------------------------------------------
